@@ -11,7 +11,8 @@ use crate::spec::*;
 use proptest::strategy::Strategy;
 use serde_json::Value;
 use std::collections::{BTreeMap, BTreeSet, HashMap, HashSet};
-use std::path::Path;
+use pytest_language_server::FixtureDatabase;
+use std::path::{Path, PathBuf};
 
 pub const RULE: &str = "proptest-generated in-memory workspaces whose fixtures request 0-3 names from a pool of 4 (self-loops with and without a parent, several SCCs, cycles through overridden names, unknown names, the five scopes, same name at several levels with different scopes, random registration order). Cycles: every reported path must be a closed chain in the reference definition-level graph containing its anchor, every cyclic SCC must be reported at least once; scope: warning set == model set; reports identical over 4 forced recomputations. Non-trivial = the reference graph has a cyclic SCC or a dependency name is defined at >=2 levels with different scopes; distinct = distinct workspace specs.";
 pub const ASSUMPTIONS: &[&str] = &[
@@ -362,6 +363,34 @@ pub fn check_ws(ws: &WorkspaceSpec, info: &mut CaseInfo) -> Outcome {
             } else {
                 return Outcome::Fail(msg);
             }
+        }
+    }
+    // ---- stability across an edit: every module in turn that is not a conftest and defines fixtures loses all of
+    // them. The reports must then be those of an index that only ever saw the resulting contents (other files
+    // analysed in the same order, so the registration order of the remaining definitions is the same).
+    const BLANK: &str = "def test_nothing_left():\n    pass\n";
+    let mut blanked: Vec<usize> = vec![];
+    for &fi in order.iter() {
+        let p = PathBuf::from(m.path(fi));
+        let is_conftest = p.file_name().map(|n| n == "conftest.py").unwrap_or(false);
+        let defines = db.file_definitions.get(&p).map(|s| !s.is_empty()).unwrap_or(false);
+        if is_conftest || !defines || blanked.len() >= 2 {
+            continue;
+        }
+        let show = |d: &FixtureDatabase| -> Vec<(Vec<String>, String, usize)> { d.detect_fixture_cycles().iter().map(|c| (c.cycle_path.clone(), c.fixture.file_path.to_string_lossy().to_string(), c.fixture.line)).collect() };
+        let _ = show(&db); // the reports are computed (and cached) before the edit, as diagnostics do
+        db.analyze_file(p.clone(), BLANK);
+        blanked.push(fi);
+        let got = show(&db);
+        let fresh = new_db_for(&m);
+        for &i in order.iter() {
+            fresh.analyze_file(PathBuf::from(m.path(i)), if blanked.contains(&i) { BLANK } else { &m.rendered[i].text });
+        }
+        let want = show(&fresh);
+        info.checks += 1;
+        info.classes.push("edit=module-loses-all-fixtures".into());
+        if got != want {
+            return Outcome::Fail(format!("after {} was changed to define no fixture, cycle reports are {:?}; an index that only saw the resulting contents reports {:?}", m.ws.files[fi].loc.rel(), got, want));
         }
     }
     if known.is_empty() {
